@@ -66,8 +66,9 @@ def cmdContainer : P String := do
     pure s!"ok {showMat (tabulate2 n n C.Q)} | {showRat C.cq} | {showMat (tabulate2 n n C.J)} | {showRats (tabulate n C.h)} | {showRat C.ci}"
 
 def cmdReport : P String := do
-  let (r, _, rows) ← pMatRC; let const ← pRat; pEnd
-  let R := report r (matOf rows) const
+  let (r, _, rows) ← pMatRC; let const ← pRat; let pat ← tok; pEnd
+  let C := Container.mk' r (matOf rows) const (unhex pat)
+  let R := report C.n C.Q C.cq
   pure s!"ok {R.size} {R.nnzU} {showRat R.density} {showRat R.opt} {R.count} {showRat R.mean} {showOpt showRat R.gap}"
 
 def toolCmds : List (String × P String) :=
